@@ -459,12 +459,18 @@ func checkC03(cs *c03Case, o *pt.Obs) error {
 	}
 	ref, err := runLayout(cs, cs.Layouts[0], o)
 	if err != nil {
+		if knownWorkerCrash(err, o) {
+			return nil
+		}
 		return fmt.Errorf("reference layout: %v", err)
 	}
 	for li := 1; li < len(cs.Layouts); li++ {
 		k := cs.Layouts[li]
 		got, err := runLayout(cs, k, o)
 		if err != nil {
+			if knownWorkerCrash(err, o) {
+				return nil
+			}
 			return fmt.Errorf("layout %d: %v", li, err)
 		}
 		fl, rot := k.Layout.Blocks()
@@ -616,6 +622,12 @@ func checkC03(cs *c03Case, o *pt.Obs) error {
 						if grpEvs == nil {
 							grpEvs = groupEvents(evs, st, ctx)
 						}
+						if m.Field != "" && m.Fn != "count" && m.Fn != "dc" && noValue(grpEvs[key], m.Field) {
+							// no event of the group carries the measure field: the aggregate has no input, and
+							// whether it is reported as 0, as empty or not at all is not stated
+							o.Class("measure_without_input")
+							continue
+						}
 						if oka && okb && (m.Fn == "earliest" || m.Fn == "latest") && (isIntZero(va) || isIntZero(vb)) &&
 							(kinds[m.Field][model.KBool] || lacksField(grpEvs[key], m.Field)) &&
 							pt.KnownFindingOpen("C04-earliest-latest-null-bool") {
@@ -710,6 +722,17 @@ func canonModelVal(v model.Val) string {
 		return "b" + strconv.FormatBool(v.B)
 	}
 	return ""
+}
+
+// noValue: no event of the list has a non-null value for field.
+func noValue(evs []*model.Event, field string) bool {
+	for _, e := range evs {
+		flat, _ := e.Flat()
+		if v, ok := flat[field]; ok && v.K != model.KNull {
+			return false
+		}
+	}
+	return true
 }
 
 func lacksField(evs []*model.Event, field string) bool {
@@ -977,3 +1000,18 @@ func absDiff(a, b int) int {
 }
 
 func TestC03(t *testing.T) { pt.RunProp(t, "C03", genC03, checkC03) }
+
+// knownWorkerCrash recognises the open finding C03-aggs-worker-short-record by its call site: the server died
+// with an index-out-of-range panic in writer.GetCvalFromRec called from search.addRecordToAggregations (a
+// block worker goroutine, which nothing recovers). Seen once in about 30 000 thorough cases and not again
+// from the same case; any other crash stays a violation.
+func knownWorkerCrash(err error, o *pt.Obs) bool {
+	msg := err.Error()
+	if strings.Contains(msg, "server process died") && strings.Contains(msg, "index out of range") &&
+		strings.Contains(msg, "writer.GetCvalFromRec") && strings.Contains(msg, "search.addRecordToAggregations") &&
+		pt.KnownFindingOpen("C03-aggs-worker-short-record") {
+		o.Known("C03-aggs-worker-short-record")
+		return true
+	}
+	return false
+}
